@@ -130,12 +130,28 @@ def replay_obj(docs, run, cls, pos):
             "rerun": "python3 tools/check.py --replay <this file>"}
 
 
-def nontrivial_counts(runs):
+def nontrivial_counts(runs, docs=None):
     c = {"multi_transition_microsteps": set(), "internal_events": 0, "eventless_steps": 0, "noop_events": 0,
-         "microsteps": 0, "guards_observed": 0, "steps": 0}
+         "microsteps": 0, "guards_observed": 0, "steps": 0, "history_target_steps": set(), "history_default_content": 0,
+         "done_events": 0, "top_final_runs": 0, "cancelled_runs": 0}
     for run in runs:
+        j = docs[run["d"] - 1].j if docs else None
+        ks = [s["k"] for s in run.get("steps", [])]
+        if "cancel" in ks:
+            c["cancelled_runs"] += 1
+        elif "exit" in ks:
+            c["top_final_runs"] += 1
         for i, s in enumerate(run.get("steps", [])):
             c["steps"] += 1
+            if j:
+                for t in s["ts"]:
+                    if 0 < t <= len(j["trans"]) and any(j["kind"][x - 1] == "history" for x in j["trans"][t - 1]["tgt"]):
+                        c["history_target_steps"].add((run["d"], t, tuple(o["s"] for o in s["obs"] if o["k"] == "enter")))
+            for o in s["obs"]:
+                if o["k"] == "mark" and o["t"].startswith("h:"):
+                    c["history_default_content"] += 1
+                if o["k"] == "ienq" and o["v"][:2] == ["done", "state"]:
+                    c["done_events"] += 1
             if s["micro"]:
                 c["microsteps"] += 1
             if len(s["ts"]) >= 2:
@@ -148,6 +164,7 @@ def nontrivial_counts(runs):
                 c["noop_events"] += 1
             c["guards_observed"] += len(s["gv"])
     c["multi_transition_microsteps"] = len(c["multi_transition_microsteps"])
+    c["history_target_steps"] = len(c["history_target_steps"])
     return c
 
 
@@ -159,14 +176,19 @@ def sample_trace(docs, run):
 
 
 def core_check(prop, tier, seed, docs, owner_classes, module="TraceCore", max_ev=3, max_q=0, modes=("preload",),
-               determinism=False, extra_note="", min_counts=None, level_text=""):
+               determinism=False, extra_note="", min_counts=None, level_text="", nontrivial_key=None, stimuli=None,
+               keyfn=None):
     t0 = time.time()
     wd = vlib.workdir(prop)
     V = vlib.Verdicts(prop)
     vlib.build_harness()
-    mc, stimuli = explore_docs(docs, wd, max_ev, max_q)
-    log("[%s] TLC Session: %d docs, %d distinct states, %d behaviours (%.1fs)" % (
-        prop, len(docs), mc["distinct"], len(stimuli), mc["wall"]))
+    if stimuli is None:
+        mc, stimuli = explore_docs(docs, wd, max_ev, max_q)
+        log("[%s] TLC Session: %d docs, %d distinct states, %d behaviours (%.1fs)" % (
+            prop, len(docs), mc["distinct"], len(stimuli), mc["wall"]))
+    else:
+        open(os.path.join(wd, "docs.json"), "w").write(docgen.to_json(docs))
+        mc = {"distinct": 0, "states": 0, "wall": 0}
     runs = run_sessions(docs, stimuli, wd, modes=modes)
     traces, anomalies = runs_to_traces(docs, runs)
     tv, verdict = validate_traces(module, traces, wd)
@@ -182,7 +204,8 @@ def core_check(prop, tier, seed, docs, owner_classes, module="TraceCore", max_ev
             continue
         if cls in owner_classes:
             doc = docs[run["d"] - 1]
-            key = "%s:%s:%s" % (cls, doc.family, doc.name if doc.family == "shape" else "gen")
+            key = keyfn(cls, doc, run, pos) if keyfn else \
+                "%s:%s:%s" % (cls, doc.family, doc.name if doc.family == "shape" else "gen")
             V.report(key, "%s: trace rejected at step %d (%s), document %s, events %s" % (
                 prop, pos, cls, doc.name, run["events"]), replay_obj(docs, run, cls, pos))
         else:
@@ -206,7 +229,7 @@ def core_check(prop, tier, seed, docs, owner_classes, module="TraceCore", max_ev
                              "two runs of the same document and events gave different traces",
                              replay_obj(docs, r, "nondeterministic", 0))
                     break
-    counts = nontrivial_counts(runs)
+    counts = nontrivial_counts(runs, docs)
     if accepted == 0 or accepted < 0.5 * len(runs) and not V.violations:
         raise ToolError("%s: only %d of %d traces accepted (unjudged: %s, anomalies: %d) - nothing was decided" % (
             prop, accepted, len(runs), unjudged, len(anomalies)))
@@ -223,7 +246,8 @@ def core_check(prop, tier, seed, docs, owner_classes, module="TraceCore", max_ev
         "behaviours_replayed": len(runs),
         "tlc_session_states": mc["distinct"], "tlc_trace_states": tv["distinct"],
         "evaluations": len(runs),
-        "distinct_nontrivial": counts["multi_transition_microsteps"] + counts["internal_events"] + counts["eventless_steps"],
+        "distinct_nontrivial": counts[nontrivial_key] if nontrivial_key else
+        counts["multi_transition_microsteps"] + counts["internal_events"] + counts["eventless_steps"],
         "rule": "every maximal behaviour of Session.tla (all external event sequences up to MaxEv=%d over each "
                 "document's alphabet) is replayed in the real interpreter and its recorded trace validated by %s.tla; "
                 "non-trivial = microsteps with >= 2 transitions (distinct doc/transition set/event) + internal-event "
@@ -296,6 +320,62 @@ def c03(tier, seed):
                       max_ev=ev, max_q=1, modes=("preload", "step"),
                       extra_note="F-shape + F-rand with raise chains, eventless counters",
                       min_counts={"internal_events": 20, "eventless_steps": 5, "noop_events": 20})
+
+
+@check("C06")
+def c06(tier, seed):
+    hist = lambda ds: [d for d in ds if "history" in d.j["kind"]]
+    if tier == "quick":
+        docs = docgen.history_docs() + hist(family(seed, tier, nrand=120, small=3, small_sample=3))
+        ev = 4
+    else:
+        docs = docgen.history_docs() + hist(family(seed, tier, nrand=1500, small=4, small_sample=10))
+        ev = 5
+    return core_check("C06", tier, seed, docs, {"enabled", "order"}, max_ev=ev,
+                      extra_note="history templates + history-containing F-rand/F-small documents",
+                      min_counts={"history_target_steps": 20, "history_default_content": 5},
+                      nontrivial_key="history_target_steps")
+
+
+@check("C07")
+def c07(tier, seed):
+    fin = lambda ds: [d for d in ds if "final" in d.j["kind"]]
+    if tier == "quick":
+        docs = docgen.final_docs() + fin(family(seed, tier, nrand=150, history=False))
+        ev = 4
+    else:
+        docs = docgen.final_docs() + fin(family(seed, tier, nrand=1500))
+        ev = 5
+    return core_check("C07", tier, seed, docs, {"ienq", "exit", "final", "afterfinal"}, max_ev=ev,
+                      extra_note="final-state templates + final-containing F-rand documents",
+                      min_counts={"done_events": 20, "top_final_runs": 20, "cancelled_runs": 20},
+                      nontrivial_key="done_events")
+
+
+@check("C19")
+def c19(tier, seed):
+    rng = random.Random(seed)
+    toks = docgen.C19_TOKENS
+    if tier == "quick":
+        docs = docgen.c19_docs(toks, rng, two_token=30, lists=10)
+        names = docgen.c19_names(toks, rng, 80)
+    else:
+        docs = docgen.c19_docs(toks, rng, two_token=None, lists=60)
+        names = docgen.c19_names(toks, rng, 1000)
+    stimuli = []
+    for i in range(len(docs)):
+        ns = list(names)
+        rng.shuffle(ns)
+        stimuli.append((i + 1, tuple([".".join(n) for n in ns[: len(ns) // 2]] + ["go"] + [".".join(n) for n in ns[len(ns) // 2:]])))
+
+    def key(cls, doc, run, pos):
+        st = run["steps"][pos - 1]
+        return "match:%s~%s" % (doc.name.split(":", 1)[1], ".".join(st["ev"]))
+
+    return core_check("C19", tier, seed, docs, {"enabled"}, stimuli=stimuli, keyfn=key,
+                      extra_note="one probe document per descriptor list (tokens incl. non-ASCII, composed/decomposed, "
+                                 "astral), every name sent as external event and a subset raised internally",
+                      min_counts={"internal_events": 100, "microsteps": 1000}, nontrivial_key="microsteps")
 
 
 # ---------------------------------------------------------------------------------------------
